@@ -79,6 +79,8 @@ Section Dap.
   Variable fin : cpu -> bool.             (* execute_instruction returns TestSuccess / TestFailed: nothing is executed *)
   Variable step_over : cpu -> cpu.        (* TestRunner::step_over, run in one piece under the runner write lock *)
   Variable step_out : cpu -> cpu.         (* TestRunner::step_out *)
+  Variable reset_lcp : bool.              (* the machine thread clears last_checked_pc after execute_instruction
+                                             (true after the fix for breakpoints on one-instruction loops; false as pinned) *)
 
   Inductive obs :=
   | OResp (r : request)                   (* success response without interesting body *)
@@ -157,10 +159,11 @@ Section Dap.
       else set_ml s1 MChecked.
 
   Definition do_execute (s : st) : st :=
+    let l := if reset_lcp then None else lcp s in
     if fin (cp s) then
-      mk (rs s) (cp s) (bps s) false (chan s ++ [Message; Disconnected]) MTop (lcp s) (sl s)
+      mk (rs s) (cp s) (bps s) false (chan s ++ [Message; Disconnected]) MTop l (sl s)
     else
-      mk (rs s) (step (cp s)) (bps s) (conn s) (chan s) MTop (lcp s) (sl s).
+      mk (rs s) (step (cp s)) (bps s) (conn s) (chan s) MTop l (sl s).
 
   Definition do_step (k : stepkind) (c : cpu) : cpu :=
     match k with KIn => exec1 c | KOver => step_over c | KOut => step_out c end.
